@@ -12,7 +12,8 @@ LEVEL = "exploration"
 RULE = ("per generated instance (values, numbins) the exhaustive optimum of every objective is computed once (O1), then the "
         "instance is solved by complete greedy under all 16 switch masks x {maxmin,minmax,diff}, by ckk/snp/rnp (diff), by dp "
         "(2 of 5 objectives) and, for values <= 200, by ilp (1 of 5 objectives); non-trivial = n > numbins >= 2 and LPT's value "
-        "differs from the optimum of that objective; distinct on (algorithm, config, sorted values, numbins)")
+        "differs from the optimum of that objective; distinct on (algorithm, config, sorted values, numbins); every 10th (thorough: 4th) instance is of class manysmall: "
+        "11-13 items with values <= 15, where O1 stays cheap, solved by cg (9 configurations), snp, rnp and ckk (<= 3 bins)")
 ASSUMPTIONS = ["O1 enumerates all sorted sum-vectors (n <= 10)", "ilp disagreements are re-solved with CBC preprocessing off; agreement then = inconclusive(solver)",
                "rnp: numbins <= 5 (numbins >= 6 is KF-rnp-k6, no value returned)"]
 FLOORS = {"quick": {"distinct_nontrivial": 3000, "cg.returns": 1000}, "thorough": {"distinct_nontrivial": 30000, "cg.returns": 10000}}
@@ -118,6 +119,20 @@ def judge_one(case, vectors, ctx, optcache):
         ctx.counters["nontrivial:" + alg] += 1
 
 
+def run_manysmall(k, values, rng, ctx):
+    """Thorough tier: 11-13 items with small values. O1 stays cheap because the number of distinct sum-vectors is bounded by the value range, not by k^n."""
+    vectors = O.sum_vectors(values, k)
+    optcache = {}
+    base = {"kind": "partition", "k": k, "values": values, "cls": "manysmall", "pres": "list", "pres_seed": 0}
+    todo = [dict(base, alg="cg", objective=[name, None], cg_mask=mask) for name in ("maxmin", "minmax", "diff") for mask in rng.sample(range(16), 3)]
+    todo += [dict(base, alg="snp"), dict(base, alg="rnp")]
+    if k <= 3:
+        todo.append(dict(base, alg="ckk"))
+    for case in todo:
+        judge_one(case, vectors, ctx, optcache)
+    ctx.counters["manysmall_instances"] += 1
+
+
 def run_instance(cls, k, values, rng, ctx, algs=None):
     n = len(values)
     vectors = O.sum_vectors(values, k)
@@ -154,8 +169,12 @@ def run_shard(spec, rng, ctx):
     i = 0
     try:
         while i < spec["max_instances"] and time.time() < end:
-            cls, k, values = draw_instance(rng)
-            run_instance(cls, k, values, rng, ctx)
+            if i % (4 if spec.get("tier") == "thorough" else 10) == 3:
+                k = rng.choice([2, 3, 3, 4])
+                run_manysmall(k, [rng.randint(0 if rng.random() < 0.1 else 1, rng.choice([4, 9, 15])) for _ in range(rng.randint(11, 13))], rng, ctx)
+            else:
+                cls, k, values = draw_instance(rng)
+                run_instance(cls, k, values, rng, ctx)
             ctx.counters["instances"] += 1
             i += 1
     finally:
